@@ -187,25 +187,63 @@ Definition settle_loop (s : sstore) : sstore * bool :=
     let '(s1, o) := sstep_obs s ALoopResume in (s1, sobs_eqb o OOk)
   else (s, false).
 
-Definition step_variant (s : sstore) (x : sstepobs) (fires_first : bool) : option sstore :=
-  let s0 := if fires_first then fire_all s (so_fired x) else s in
-  let '(s1, o) := sstep_obs s0 (so_act x) in
-  let s2 := if fires_first then s1 else fire_all s1 (so_fired x) in
-  let '(s3, acq) := settle_loop s2 in
-  if sobs_eqb o (so_obs x) && Bool.eqb acq (so_loop_acquired x)
+(* In real-timer schedules the driver only knows WHICH idle timers fired during a step, not when:
+   each fire may precede or follow the step's action, and a reaper woken by an early fire may
+   already have re-evaluated its guard (and taken the lock) before the action.  Every combination
+   the observation cannot distinguish is tried.  A fire of stream i detected in the step of
+   Close i preceded the Close (after it the callback finds the stream closed and sets nothing). *)
+Fixpoint splits (l : list nat) : list (list nat * list nat) :=
+  match l with
+  | [] => [([], [])]
+  | i :: r => flat_map (fun p => [(i :: fst p, snd p); (fst p, i :: snd p)]) (splits r)
+  end.
+
+Definition split_ok (a : sact) (after : list nat) : bool :=
+  match a with AClose i => negb (memn i after) | _ => true end.
+
+(* LockingStreamer.Read does not take the streamer's mutex: a Read that overlaps the idle callback
+   of its own stream may still deliver data, find the files closed under it, or see the timeout *)
+Definition read_raced (x : sstepobs) : bool :=
+  match so_act x with
+  | ARead i => memn i (so_fired x) &&
+               match so_obs x with OData | OTimeoutErr | OClosedErr => true | _ => false end
+  | _ => false
+  end.
+
+Definition step_variant (s : sstore) (x : sstepobs) (before after : list nat) (resume_early : bool) : option sstore :=
+  let s0 := fire_all s before in
+  let '(s0', acq0) := if resume_early then settle_loop s0 else (s0, false) in
+  let '(s1, o) := sstep_obs s0' (so_act x) in
+  let s2 := fire_all s1 after in
+  let '(s3, acq1) := settle_loop s2 in
+  if split_ok (so_act x) after
+     && (sobs_eqb o (so_obs x) || read_raced x) && Bool.eqb (acq0 || acq1) (so_loop_acquired x)
      && (m_nr (lk s3) =? so_nr x)%Z && String.eqb (m_owner (lk s3)) (so_owner x)
   then Some s3 else None.
+
+Fixpoint first_variant (s : sstore) (x : sstepobs) (l : list (list nat * list nat)) : option sstore :=
+  match l with
+  | [] => None
+  | (b, a) :: r =>
+      match step_variant s x b a false with
+      | Some s' => Some s'
+      | None => match b with
+                | [] => first_variant s x r
+                | _ => match step_variant s x b a true with
+                       | Some s' => Some s'
+                       | None => first_variant s x r
+                       end
+                end
+      end
+  end.
 
 Fixpoint sexec (s : sstore) (l : list sstepobs) : bool :=
   match l with
   | [] => true
   | x :: r =>
-      match step_variant s x true with
+      match first_variant s x (splits (so_fired x)) with
       | Some s' => sexec s' r
-      | None => match so_fired x with
-                | [] => false
-                | _ => match step_variant s x false with Some s' => sexec s' r | None => false end
-                end
+      | None => false
       end
   end.
 
